@@ -137,3 +137,43 @@ func VerifHarness_C05_node() {
 	}
 	verifrt.Reach("C05.node.done")
 }
+
+// VerifHarness_C05_alone: a transaction nobody double spends, in every way it can reach the handlers
+// through a block - first seen in the block, or seen unconfirmed before (tracked, or filtered out
+// because the client subscribed later) - with the node in sync or catching up: it is never flagged
+// unsafe, there is nothing to flag it against.
+func VerifHarness_C05_alone() {
+	ctx := context.Background()
+	k, err := vkNewNode(ctx, nil)
+	verifrt.Assert(err == nil, "C05.kit.node-loads")
+	node, rec := k.node, k.rec
+	node.state.SetInSync()
+	t := vkTx(45, []int{11}, true)
+	txid := *t.TxHash()
+	seen := verifrt.Choose("seen-unconfirmed", 3) // 0 no, 1 yes and delivered, 2 yes but before the subscription
+	switch seen {
+	case 1:
+		verifrt.Assert(node.processUnconfirmedTx(ctx, handlers.TxData{Msg: t, Trusted: true, ConfirmedHeight: -1}) == nil, "C05.node.processed")
+	case 2:
+		node.UnsubscribePushDatas(ctx, [][]byte{vkSubscribed()})
+		verifrt.Assert(node.processUnconfirmedTx(ctx, handlers.TxData{Msg: t, Trusted: true, ConfirmedHeight: -1}) == nil, "C05.node.processed")
+		node.SubscribePushDatas(ctx, [][]byte{vkSubscribed()})
+	}
+	if verifrt.Choose("catching-up-when-the-block-arrives", 2) == 1 {
+		node.state.ClearInSync() // e.g. after a reconnection: the mempool is still there
+		verifrt.Reach("C05.alone.not-in-sync")
+	}
+	block := vkBlock(*node.blocks.LastHash(), 1, []*wire.MsgTx{vkTx(46, []int{12}, false), t})
+	verifrt.Assert(node.ProcessBlock(ctx, block) == nil, "C05.node.block-processed")
+	n := 0
+	for _, e := range rec.events {
+		if e.txid != txid || (e.kind != "tx" && e.kind != "update") {
+			continue
+		}
+		n++
+		verifrt.Sig("alone", seen, "flagged")
+		verifrt.Assert(!e.state.UnSafe && !e.state.Cancelled, "C05.alone.a-transaction-without-a-rival-is-never-flagged")
+	}
+	verifrt.Assert(n >= 1, "C05.alone.delivered")
+	verifrt.Reach("C05.alone.done")
+}
